@@ -193,21 +193,151 @@ func joinPoly(a, b poly) poly {
 
 type idxAnalysis struct {
 	fn       *ssa.Function
-	kind     ssa.Value // the kind parameter (may be nil)
-	sliceVal string    // constant of sliceExpression
-	assume   string    // "slice", "index" or ""
+	kind     ssa.Value  // the kind parameter (may be nil)
+	kindType types.Type // the type of the kind parameter of the anchored normaliser
+	sliceVal string     // constant of sliceExpression
+	assume   string     // "slice", "index" or ""
 	syms     map[ssa.Value]string
 	norm     map[*ssa.Function]bool // the normaliser functions (postcondition assumed at call sites, proved separately)
 	lenOf    map[string]string      // symbol of a normaliser result -> symbol/expr key of the length it was called with
+
+	// helpers of the package that return an int or (int, error) are interpreted in place, once per call site
+	prefix  string              // makes the symbols of one inlined instance unique
+	stack   []*ssa.Function     // the functions being interpreted (no recursion)
+	root    *idxAnalysis        // the analysis of the anchored function (nil: this one)
+	inlined int                 // root: number of instances so far
+	convs   []lin               // root: the float→int conversions met, as linear forms
+	pending map[*ssa.Call][]lin // what holds when the error result of this inlined call is nil
+	notes   map[string]bool     // root: helpers interpreted in place
+	subst   map[ssa.Value]lin   // inlined instance: parameter → the argument's linear form
+}
+
+func (a *idxAnalysis) top() *idxAnalysis {
+	if a.root != nil {
+		return a.root
+	}
+	return a
+}
+
+// inlinable: a function of the same package with a body that returns an int, or an int and an error.
+func (a *idxAnalysis) inlinable(f *ssa.Function) bool {
+	if f == nil || len(f.Blocks) == 0 || f.Pkg != a.fn.Pkg || a.norm[f] || len(a.stack) >= 3 || f == a.fn {
+		return false
+	}
+	for _, g := range a.stack {
+		if g == f {
+			return false
+		}
+	}
+	res := f.Signature.Results()
+	switch res.Len() {
+	case 1:
+		return isIntType(res.At(0).Type())
+	case 2:
+		return isIntType(res.At(0).Type()) && res.At(1).Type().String() == "error"
+	}
+	return false
+}
+
+// inline interprets the call in the state cur and returns the state behind it (single int result) or records what holds
+// when its error result is nil (int and error). The text is non-empty when the callee cannot be interpreted.
+func (a *idxAnalysis) inline(call *ssa.Call, cur []lin) ([]lin, string) {
+	f := call.Call.StaticCallee()
+	top := a.top()
+	top.inlined++
+	sub := &idxAnalysis{fn: f, sliceVal: a.sliceVal, syms: map[ssa.Value]string{}, norm: a.norm, root: top, subst: map[ssa.Value]lin{},
+		prefix: fmt.Sprintf("%s@%d.", f.Name(), top.inlined), stack: append(append([]*ssa.Function{}, a.stack...), a.fn)}
+	if top.notes == nil {
+		top.notes = map[string]bool{}
+	}
+	top.notes[f.Name()] = true
+	initial := append([]lin{}, cur...)
+	for i, prm := range f.Params {
+		if i >= len(call.Call.Args) {
+			break
+		}
+		arg := call.Call.Args[i]
+		if isIntValue(prm) && isIntValue(arg) {
+			sub.subst[prm] = a.linOf(arg, 0) // the parameter is the argument: the helper's results are then stated over the caller's values
+		}
+		if a.kind != nil && types.Identical(prm.Type(), a.kind.Type()) || a.kind == nil && a.kindType != nil && types.Identical(prm.Type(), a.kindType) {
+			sub.kind = prm
+			switch x := arg.(type) {
+			case *ssa.Const:
+				if constKey(x) == a.sliceVal {
+					sub.assume = "slice"
+				} else {
+					sub.assume = "index"
+				}
+			default:
+				if arg == a.kind {
+					sub.assume = a.assume
+				}
+			}
+		}
+	}
+	sub.kindType = a.kindType
+	if a.kind != nil {
+		sub.kindType = a.kind.Type()
+	}
+	rets, bad := sub.run(initial)
+	if bad != "" {
+		return nil, f.Name() + ": " + bad
+	}
+	two := f.Signature.Results().Len() == 2
+	var res ssa.Value = call
+	if two {
+		res = nil
+		if refs := call.Referrers(); refs != nil {
+			for _, r := range *refs {
+				if ex, ok := r.(*ssa.Extract); ok && ex.Index == 0 {
+					res = ex
+				}
+			}
+		}
+	}
+	joined := poly{bottom: true}
+	var keys []*ssa.Return
+	for ret := range rets {
+		keys = append(keys, ret)
+	}
+	sort.Slice(keys, func(i, j int) bool { return keys[i].Block().Index < keys[j].Block().Index })
+	for _, ret := range keys {
+		st := rets[ret]
+		if two && (len(ret.Results) != 2 || !mayBeNilError(ret.Results[1], ret.Block(), 0)) {
+			continue // an error is returned: the caller's success edge does not come from here
+		}
+		cs := append([]lin{}, st.cs...)
+		if res != nil {
+			rs, rv := linSym(a.sym(res)), sub.linOf(ret.Results[0], 0)
+			cs = append(cs, rs.add(rv, -1), rv.add(rs, -1))
+		}
+		if infeasible(cs) {
+			continue
+		}
+		joined = joinPoly(joined, poly{cs: cs})
+	}
+	if joined.bottom {
+		if two {
+			a.pending[call] = []lin{linConst(1)} // no successful return: the success edge is dead
+			return cur, ""
+		}
+		return []lin{linConst(1)}, ""
+	}
+	if two {
+		a.pending[call] = joined.cs
+		return cur, ""
+	}
+	return joined.cs, ""
 }
 
 func (a *idxAnalysis) sym(v ssa.Value) string {
 	if s, ok := a.syms[v]; ok {
 		return s
 	}
-	s := fmt.Sprintf("%s#%d", v.Name(), len(a.syms))
+	s := fmt.Sprintf("%s%s#%d", a.prefix, v.Name(), len(a.syms))
 	if p, ok := v.(*ssa.Parameter); ok {
-		s = p.Name()
+		s = a.prefix + p.Name()
 	}
 	a.syms[v] = s
 	return s
@@ -217,6 +347,9 @@ func (a *idxAnalysis) sym(v ssa.Value) string {
 func (a *idxAnalysis) linOf(v ssa.Value, depth int) lin {
 	if depth > 10 {
 		return linSym(a.sym(v))
+	}
+	if l, ok := a.subst[v]; ok {
+		return l
 	}
 	switch x := v.(type) {
 	case *ssa.Const:
@@ -363,6 +496,20 @@ func (a *idxAnalysis) run(initial []lin) (map[*ssa.Return]poly, string) {
 		cur := append([]lin{}, st.cs...)
 		// facts introduced by instructions of the block: results of the normalisers
 		for _, ins := range b.Instrs {
+			if cv, ok := ins.(*ssa.Convert); ok && isIntValue(cv) && !isIntValue(cv.X) {
+				a.top().convs = append(a.top().convs, a.linOf(cv, 0))
+			}
+			if call, ok := ins.(*ssa.Call); ok && a.inlinable(call.Call.StaticCallee()) {
+				if a.pending == nil {
+					a.pending = map[*ssa.Call][]lin{}
+				}
+				next, bad := a.inline(call, cur)
+				if bad != "" {
+					return nil, bad
+				}
+				cur = next
+				continue
+			}
 			ex, ok := ins.(*ssa.Extract)
 			if !ok || ex.Index != 0 {
 				continue
@@ -409,12 +556,30 @@ func (a *idxAnalysis) run(initial []lin) (map[*ssa.Return]poly, string) {
 		}
 		switch x := last.(type) {
 		case *ssa.Return:
+			// `return helper(…)`: what holds when the helper's error is nil holds when this function's is
+			if n := len(x.Results); n >= 2 {
+				if ex, ok := x.Results[n-1].(*ssa.Extract); ok {
+					if call, ok := ex.Tuple.(*ssa.Call); ok && a.pending[call] != nil {
+						cur = append(cur, a.pending[call]...)
+					}
+				}
+			}
 			out[x] = poly{cs: cur}
 		case *ssa.If:
 			for idx, s := range b.Succs {
 				g, dead := a.guard(x.Cond, idx == 0)
 				if dead {
 					continue
+				}
+				// the edge on which the error of an interpreted helper is nil
+				if bo, ok := x.Cond.(*ssa.BinOp); ok && (bo.Op == token.NEQ || bo.Op == token.EQL) {
+					if k, ok := bo.Y.(*ssa.Const); ok && k.IsNil() {
+						if ex, ok := bo.X.(*ssa.Extract); ok {
+							if call, ok := ex.Tuple.(*ssa.Call); ok && a.pending[call] != nil && (bo.Op == token.EQL) == (idx == 0) {
+								g = append(g, a.pending[call]...)
+							}
+						}
+					}
 				}
 				push(s, append(append([]lin{}, cur...), g...))
 			}
@@ -469,15 +634,7 @@ func runIdxPost(c *Ctx, r *Reporter, rel string) {
 		r.Undecided("normalizeIndex of %s: length or kind parameter not recognised", rel)
 		return
 	}
-	// the user's index as an integer: the float→int conversion in the function
-	var conv *ssa.Convert
-	for _, b := range ni.Blocks {
-		for _, ins := range b.Instrs {
-			if cv, ok := ins.(*ssa.Convert); ok && isIntValue(cv) && !isIntValue(cv.X) {
-				conv = cv
-			}
-		}
-	}
+	// the user's index as an integer: the float→int conversion in the function (or in a helper interpreted in place)
 	for _, part := range []string{"index", "slice"} {
 		a := &idxAnalysis{fn: ni, kind: kind, sliceVal: sliceVal, assume: part, syms: map[ssa.Value]string{}, norm: map[*ssa.Function]bool{}}
 		L := linSym(a.sym(length))
@@ -497,7 +654,7 @@ func runIdxPost(c *Ctx, r *Reporter, rel string) {
 			if len(ret.Results) != 2 {
 				continue
 			}
-			if k, ok := ret.Results[1].(*ssa.Const); !ok || !k.IsNil() {
+			if !mayBeNilError(ret.Results[1], ret.Block(), 0) {
 				continue // error return
 			}
 			n++
@@ -522,8 +679,10 @@ func runIdxPost(c *Ctx, r *Reporter, rel string) {
 				why += "r ≤ " + bound + " is not entailed"
 			}
 			// the mapping law: a non-negative index is returned as it is, a negative one counts from the end (r = length + i)
-			if conv != nil {
-				iv := a.linOf(conv, 0)
+			if len(a.convs) != 1 {
+				r.Undecided("normalizeIndex of %s (%s): %d conversions of the index to an integer found, expected one", rel, part, len(a.convs))
+			} else {
+				iv := a.convs[0]
 				same := entails(st.cs, res.add(iv, -1)) && entails(st.cs, iv.add(res, -1))
 				fromEnd := entails(st.cs, res.add(iv.add(L, 1), -1)) && entails(st.cs, iv.add(L, 1).add(res, -1))
 				nonNeg := entails(st.cs, iv.scale(-1))
@@ -569,7 +728,7 @@ func runIdxPost(c *Ctx, r *Reporter, rel string) {
 			if len(ret.Results) != 3 {
 				continue
 			}
-			if k, ok := ret.Results[2].(*ssa.Const); !ok || !k.IsNil() {
+			if !mayBeNilError(ret.Results[2], ret.Block(), 0) {
 				continue
 			}
 			n++
